@@ -34,7 +34,7 @@ var Profiles = map[string]Knobs{}
 
 func init() {
 	general := Knobs{Name: "general", MinGroups: 1, MaxGroups: 2, Scans: 30, MaxNodes: 10, PFleet: 0.15, PAuto: 0.2, PMaxBelowASG: 0.25,
-		PFault: 0.08, PCrash: 0.02, PStale: 0.05, PRestart: 0.04, PBoundary: 0.45, PStarve: 0.2, PMaxAge: 0.2, PDefault: 0.15, PDebugLog: 0.1,
+		PFault: 0.08, PCrash: 0.02, PStale: 0.05, PRestart: 0.04, PMidScan: 0.03, PBoundary: 0.45, PStarve: 0.2, PMaxAge: 0.2, PDefault: 0.15, PDebugLog: 0.1,
 		PTies: 0.15, POps: 0.35, Ops: baseOps(), MinZero: 0.15}
 	Profiles["general"] = general
 
@@ -112,6 +112,7 @@ func init() {
 	p.PFault = 0
 	p.PStale = 0
 	p.PRestart = 0
+	p.PMidScan = 0
 	p.StatelessClock = true
 	p.SortedView = true
 	p.ShortGrace = true
@@ -120,7 +121,8 @@ func init() {
 
 	p = general
 	p.Name = "taints" // C15: foreign taints, stale views, cycles
-	p.PStale = 0.25
+	p.PStale = 0.2
+	p.PMidScan = 0.15
 	p.PFleet = 0
 	p.Ops = with(baseOps(), "foreign-taint", 8, "load-low", 8, "load-up", 6, "load", 6, "annotate", 2)
 	Profiles["taints"] = p
@@ -134,13 +136,14 @@ func init() {
 	p.PFleet = 0.3
 	p.PDebugLog = 0.3
 	p.ShortGrace = true
-	p.Ops = with(baseOps(), "ext-taint-odd", 4, "load-up", 5)
+	p.Ops = with(baseOps(), "ext-taint-odd", 4, "load-up", 5, "fleet-script", 2)
+	p.PMidScan = 0.1
 	Profiles["faults"] = p
 
 	p = general
 	p.Name = "enum" // C20 fault enumeration: fault-free base histories, every decision branch, short
 	p.Scans = 10
-	p.PFault, p.PCrash, p.PStale, p.PRestart = 0, 0, 0, 0
+	p.PFault, p.PCrash, p.PStale, p.PRestart, p.PMidScan = 0, 0, 0, 0, 0
 	p.PFleet = 0.3
 	p.ShortGrace = true
 	p.PBoundary = 0.7
@@ -161,8 +164,24 @@ func init() {
 	p = general
 	p.Name = "fleet" // C17 C18 at controller level
 	p.PFleet = 1
-	p.Ops = with(baseOps(), "load-up", 10, "load", 6)
+	p.Ops = with(baseOps(), "load-up", 10, "load", 6, "fleet-script", 4)
 	Profiles["fleet"] = p
+}
+
+// ProfileFor resolves a profile name; the suffix "-long" gives the same profile with three times the scans
+// and larger groups (used by the thorough tier).
+func ProfileFor(name string) (Knobs, bool) {
+	long := false
+	if len(name) > 5 && name[len(name)-5:] == "-long" {
+		long = true
+		name = name[:len(name)-5]
+	}
+	k, ok := Profiles[name]
+	if ok && long {
+		k.Scans *= 3
+		k.MaxNodes = 26
+	}
+	return k, ok
 }
 
 // directed performs the profile's scripted moves before scan s.
